@@ -89,7 +89,8 @@ func Shiftable(name string) bool {
 
 // Src is an instrumented scripted source, usable as iterator (items only) and as stream.
 type Src struct {
-	IgnoreCtx      bool // the source does not look at the context it is given (a closed channel, an in-memory source)
+	OnCall         func() // called once at the start of the next Next / INext (the context of the consumer's call ends *during* the call)
+	IgnoreCtx      bool   // the source does not look at the context it is given (a closed channel, an in-memory source)
 	Script         []Step
 	pos            int
 	Taken          int // items handed out
@@ -110,6 +111,10 @@ func (s *Src) leave() { s.in.Add(-1) }
 // iterator face: transient/fail steps are skipped (iterators cannot fail)
 func (s *Src) INext() (int, bool) {
 	s.Calls++
+	if f := s.OnCall; f != nil {
+		s.OnCall = nil
+		f()
+	}
 	for s.pos < len(s.Script) {
 		st := s.Script[s.pos]
 		if st.Kind == StItem {
@@ -137,6 +142,10 @@ func (s *Src) Next(ctx context.Context) (int, error) {
 	s.Calls++
 	if s.Closes > 0 {
 		s.NextAfterClose++
+	}
+	if f := s.OnCall; f != nil {
+		s.OnCall = nil
+		f()
 	}
 	if err := ctx.Err(); err != nil && !s.IgnoreCtx {
 		return 0, err // an expired context consumes nothing
